@@ -1,5 +1,5 @@
 (** C04 — evaluation never panics into the host. *)
-From Lisp Require Import Base Value Core Binder Env Eval Interp EvalProofs Run.
+From Lisp Require Import Base Value Core Binder Env Eval Interp EvalProofs Run WfVal NoPanic StepperSim.
 From Lisp.Gen Require Import Examples.
 
 (** the reflective binder converts every panic of the bound function, of the arity check and
@@ -15,11 +15,52 @@ Proof. exact gate_no_panic. Qed.
 Theorem C04_higher_order_builtin_never_panics : forall A (m : M A) st s st', finishM m st <> (Panic s, st').
 Proof. exact (@finishM_no_panic). Qed.
 
+(** THE property, for every program: whatever the form (well-formed: its function values, if any, refer to
+    scopes that exist), the scope and the interpreter state (well-formed: [WF]), whatever the fuel and the
+    depth, the evaluator never yields a Go panic — every checked Go operation of the model (index, slice,
+    type assertion, nil map, nil scope) is unreachable or under the binder's recover.  [eval_c] is the same
+    evaluator with the cancellation poll. *)
+Theorem C04_eval_never_panics : forall n d ast env st s st',
+  WF st -> wfb (nx st) ast = true -> (env < nx st)%positive -> eval n d ast env st <> (Panic s, st').
+Proof. exact eval_never_panics. Qed.
+
+Theorem C04_eval_c_never_panics : forall n d ast env st s st',
+  WF st -> wfb (nx st) ast = true -> (env < nx st)%positive -> eval_c n d ast env st <> (Panic s, st').
+Proof. exact eval_c_never_panics. Qed.
+
+(** the invariant is kept: the state one evaluation leaves is a state the next one can start from (a REPL session) *)
+Theorem C04_invariant_is_kept : forall n d ast env st r st',
+  WF st -> wfb (nx st) ast = true -> (env < nx st)%positive -> eval n d ast env st = (r, st') ->
+  WF st' /\ (nx st <= nx st')%positive /\ match r with Ok v | Err v => wfb (nx st') v = true | _ => True end.
+Proof. exact eval_preserves_WF. Qed.
+
+(** as a user reads it: any data-only form — whatever READ returns, whatever a host builds from lists, vectors, maps,
+    symbols and scalars — evaluated in the root scope of a fresh environment *)
+Theorem C04_no_program_panics : forall n d ast s st', datab ast = true -> eval n d ast ROOT state0 <> (Panic s, st').
+Proof. exact eval_program_never_panics. Qed.
+
+(** with a debugger stepper that answers with the four commands only *)
+Theorem C04_stepped_evaluation_never_panics : forall n d ast env st s,
+  nobad st -> WF st -> wfb (nx st) ast = true -> (env < nx st)%positive -> fst (eval_dbg n d ast env st) <> Panic s.
+Proof. exact eval_dbg_never_panics. Qed.
+
+(** the premises are met by the initial state and a non-trivial program *)
+Example C04_premises_hold :
+  WF state0 /\ datab (VList [VSym (s_ "try") None; VList [VSym (s_ "nth") None; VVec [] None; VInt 3] None;
+                              VList [VSym (s_ "catch") None; VSym (s_ "e") None; VSym (s_ "e") None] None] None) = true /\
+  wfb 2 (VFn (VVec [] None) (VList [VSym (s_ "do") None] None) ROOT false) = true.
+Proof. exact np_premises_hold. Qed.
+
 (** the formerly panicking malformed special forms are errors a try can catch (computed) *)
 Example C04_malformed_forms_are_catchable :
   observe ex_c04_malformed = s_ "V l 6 s 3 670 101 49 s 3 670 101 50 s 3 670 101 51 s 3 670 101 52 n s 3 670 101 54 | l 0 ".
 Proof. vm_compute. reflexivity. Qed.
 
+Print Assumptions C04_eval_never_panics.
+Print Assumptions C04_eval_c_never_panics.
+Print Assumptions C04_invariant_is_kept.
+Print Assumptions C04_no_program_panics.
+Print Assumptions C04_stepped_evaluation_never_panics.
 Print Assumptions C04_bound_builtin_never_panics.
 Print Assumptions C04_gate_never_panics.
 Print Assumptions C04_higher_order_builtin_never_panics.
